@@ -458,6 +458,17 @@ func (e *Emu) errResp(rec *httptest.ResponseRecorder) Resp {
 	return r
 }
 
+// ExecDirect runs one request on the calling goroutine (the cooperative scheduler identifies its
+// threads by goroutine and has its own hang detection).
+func (e *Emu) ExecDirect(r Req) Resp {
+	var o Resp
+	_, p := e.exec(r, &o)
+	if p != "" {
+		return Resp{Status: 599, Kind: "none", Panic: p}
+	}
+	return o
+}
+
 // Exec runs one request with a watchdog: a request that does not return within 10 s is a hang
 // (status 598); the emulator is then considered wedged and later requests are not attempted.
 func (e *Emu) Exec(r Req) (out Resp) {
